@@ -29,5 +29,21 @@ UNIT = dict(
         dict(file=R, impl='Rc4', name='encrypt', rules=dict(no_sink=True, pre_subst=[
             dict(rule='R11', pat=r'fn encrypt<Input>\(&self, input: Input\) -> Vec<u8>\s*where\s*Input: AsRef<\[u8\]>,\s*\{', to='fn encrypt(&self, input: &[u8]) -> Vec<u8>\n    {', count=1, note='AsRef<[u8]> at &[u8]'),
         ])),
+        dict(file=K, impl='Pkcs5', name='unpad', rules=dict(no_sink=True, raw_sig=True, subst=[
+            dict(rule='R7', lit='-> Result<&[u8], UnpadError>', to='-> (r: core::result::Result<&[u8], UnpadError>)', count=1, note='result named'),
+            dict(rule='R5', lit='panic!("block size is too big for PKCS#5");', to='panic_unreachable();', count=1, note='panic! is an obligation: must be unreachable under the precondition'),
+            dict(rule='R10', lit='block[s..bs - 1].iter().any(|&v| v != n)', to='any_ne(block, s, bs - 1, n)', count=1, note='slice.iter().any template'),
+            dict(rule='R5', lit='Ok(&block[..s])', to='Ok(prefix(block, s))', count=1, note='sub-slice shim'),
+        ])),
+        dict(file=K, impl='RawPadding for Pkcs5', emit_impl='impl Pkcs5', key_impl='Pkcs5', name='raw_pad', rules=dict(no_sink=True, loops={1: dict(kind='index', start='pos', limit='block.len()')}, pre_subst=[
+            dict(rule='R10', lit='for b in &mut block[pos..] {', to='for b in block_iter_mut_from_pos {', count=1, note='iter_mut over a sub-slice: index loop from pos'),
+        ], subst=[
+            dict(rule='R10', lit='*b = n;', to='block[__k1 - 1] = n;', count=1, note='iter_mut template: *b is block[k]'),
+            dict(rule='R5', lit='panic!("block size is too big for PKCS#5");', to='panic_unreachable();', count=1, note='panic! must be unreachable'),
+            dict(rule='R5', lit='panic!("`pos` is bigger or equal to block size");', to='panic_unreachable();', count=1, note='panic! must be unreachable'),
+        ])),
+        dict(file=K, impl='RawPadding for Pkcs5', emit_impl='impl Pkcs5', key_impl='Pkcs5', name='raw_unpad', rules=dict(no_sink=True, raw_sig=True, subst=[
+            dict(rule='R7', lit='-> Result<&[u8], UnpadError>', to='-> (r: core::result::Result<&[u8], UnpadError>)', count=1, note='result named'),
+        ])),
     ],
 )
